@@ -143,7 +143,9 @@ Definition vstep (broken : bool) (r : rs) (k a b : nat) : option rs :=
          | None => None
          end
   | 5 =>
-    match end_workers s broken 0 (length (ws s)) with
+    (* a worker with a broken driver panics only if it went idle before the
+       channel closed; the join result tells whether one did *)
+    match end_workers s (broken && Nat.eqb a 1) 0 (length (ws s)) with
     | Some s1 => match step s1 (EJoinReturn (Nat.eqb a 1)) with
                  | Some s' => Some (mk_rs s' (r_ids r) (r_owner r))
                  | None => None
